@@ -81,6 +81,8 @@ pub struct Plan {
     pub late: usize,
     /// send attempts that block until released (attempt 0 is the client hello)
     pub block_sends: Vec<usize>,
+    /// of the blocked sends, those whose bytes are on the wire before the send suspends
+    pub block_after_write: Vec<usize>,
     /// the main task yields to the scheduler between RPCs
     pub yield_between: bool,
     /// server hello is in the inbox before the client starts (else its delivery is an action)
@@ -100,7 +102,7 @@ impl Plan {
     pub fn describe(&self) -> Value {
         json!({
             "first": self.first.iter().map(|p| format!("{p:?}")).collect::<Vec<_>>(),
-            "late": self.late, "block_sends": self.block_sends, "yield_between": self.yield_between,
+            "late": self.late, "block_sends": self.block_sends, "block_after_write": self.block_after_write, "yield_between": self.yield_between,
             "hello_preloaded": self.hello_preloaded, "extra": self.extra.len(), "drops": self.drops,
         })
     }
@@ -295,6 +297,7 @@ pub fn run(
     {
         let mut st = wire.lock();
         st.block_sends = plan.block_sends.iter().copied().collect();
+        st.block_after_write = plan.block_after_write.iter().copied().collect();
         if plan.hello_preloaded {
             st.inbox.push_back(plan.hello.clone());
         }
